@@ -101,14 +101,14 @@ def spec_strategy(draw, tier):
         elif topo == "swapped-roles" and i % 2 == 1:   # the same two hosts and the same two port numbers, roles exchanged: X:p -> Y:q and Y:p -> X:q
             ep.update(cip=base["sip"], sip=base["cip"], cmac=base["smac"], smac=base["cmac"], v6=base["v6"], cport=base["cport"], sport=base["sport"])
         elif topo == "swapped-roles":
-            ep.update(cip=base["cip"], sip=base["sip"], cmac=base["cmac"], smac=base["smac"], v6=base["v6"], cport=base["cport"] + (i // 2), sport=base["sport"])
+            ep.update(cip=base["cip"], sip=base["sip"], cmac=base["cmac"], smac=base["smac"], v6=base["v6"], cport=1024 + (base["cport"] - 1024 + (i // 2)) % 64000, sport=base["sport"])
         elif topo == "same-server":       # different clients, one server
             ep.update(sip=base["sip"], smac=base["smac"], v6=base["v6"])
             ep["cip"] = ("2001:db8:eeee::%x" % (i + 1)) if base["v6"] else "10.99.%d.%d" % (i, 1 + i)
         proto = "udp" if k in ("quic",) else "tcp"
         tup = (proto, ep["cip"], ep["cport"], ep["sip"], ep["sport"])
-        while tup in used:
-            ep["cport"] += 1
+        while tup in used or ep["cport"] in (443, 44330):
+            ep["cport"] = 1024 + (ep["cport"] - 1023) % 64000
             tup = (proto, ep["cip"], ep["cport"], ep["sip"], ep["sport"])
         used.add(tup)
         if k == "tls":
